@@ -74,9 +74,13 @@ Definition accepts (p : cprog) : bool :=
   match p with
   | CQuery n vs es =>
       (* the [Disjoint] bound between views and entry views is on every public way to a query result — query,
-         par_query, run_system, run_par_system, the two [Task] impls (read off the source) *)
+         par_query, run_system, run_par_system, the two [Task] impls (read off the source) — and [Disjoint] is what
+         [disjoint_views] says only while each side's [MutableInverse] takes exactly the mutably viewed components
+         out of the registry and goes on into the tail after every head, the identifier view included (read off
+         query/view/disjoint.rs) *)
       contains_views n vs && contains_views n es
-      && (if fact_entry_views_disjoint_bound_everywhere then disjoint_views n vs es else true)
+      && (if fact_entry_views_disjoint_bound_everywhere && fact_disjoint_takes_out_exactly_the_mutable_views
+          then disjoint_views n vs es else true)
   | CResViews nres req => nodupb (map snd req) && forallb (fun r => Nat.ltb (snd r) nres) req
   | COutside => false
   | CInside => true
